@@ -63,6 +63,8 @@ inductive Shape where
 /-- the pipeline stage at which the single injected failure happens -/
 inductive Stage where
   | none
+  | refuse         -- the transport refuses the request while it reconstructs the input (declared
+                   -- length over the limit, length not a number, read error): WsgiApplication.handle_rpc
   | createInDoc    -- in_protocol.create_in_document          (malformed bytes)
   | decompose      -- in_protocol.decompose_incoming_envelope (bad envelope)
   | genContexts    -- in_protocol.generate_method_contexts    (unknown method)
@@ -94,6 +96,11 @@ inductive ProcCase where
   | retRaise (k : ExcKind)    -- a method_return_object listener raises
   deriving DecidableEq, Repr
 
+/-- the keyword through which an EventManager is given to @rpc -/
+inductive Spelling where
+  | evmgr | evmgrs | eventManager | eventManagers
+  deriving DecidableEq, Repr
+
 /-- one measurement: the events a function fired (as seen by a listener registered first on the
     application's manager, with the runs of the user function), and whether an exception left it -/
 structure Meas where
@@ -119,6 +126,11 @@ structure Facts14 where
   /-- WsgiApplication.handle_rpc when get_out_string raises: what is fired before the error response
       is built -/
   wsgiSerFail : Meas
+  /-- WsgiApplication.handle_rpc when reconstructing the request input raises (a Fault: RequestTooLongError,
+      ValidationError for the Content-Length; another exception: the input stream fails) -/
+  wsgiRefuse : ExcKind → Meas
+  /-- does a manager passed to @rpc under this keyword end up in descriptor.event_managers -/
+  spellingReaches : Spelling → Bool
   /-- the output protocol's own events while it serialises a result of the given shape / a fault /
       before a failing serialize raises -/
   serOk : OutProto → Shape → List Event
@@ -206,9 +218,10 @@ def skeleton (F : Facts14) (noneOk noneErr : Bool) (t : Transport) (stage : Stag
     (co ro : Option ExcKind) : Skel :=
   let start := sk (startSteps F t)
   match stage with
-  | .createInDoc | .decompose | .genContexts =>
-    -- ServerBase.generate_contexts: no descriptor yet
-    let m := F.genCtx kind
+  | .refuse | .createInDoc | .decompose | .genContexts =>
+    -- ServerBase.generate_contexts: no descriptor yet. (WSGI input refusal: measured on handle_rpc; for the bare
+    -- ServerBase sequence a failing in_string iterable fails inside create_in_document.)
+    let m := if stage = .refuse ∧ t = .wsgi then F.wsgiRefuse kind else F.genCtx kind
     if m.escapes then ⟨start ++ sk (symSteps false m.evs), true⟩
     else ⟨start ++ sk (symSteps false m.evs) ++ errTail F noneErr t false, false⟩
   | .deserialize =>
@@ -315,6 +328,10 @@ def runHandlers (raises : H → Event → Option ExcKind) (ev : Event) :
 def expand (w : World) : Step → List Obs
   | .fire src ev => (runHandlers w.raises ev (targets w src ev)).1
   | .user => [.user]
+
+/-- the managers that reach the descriptor when they are passed to @rpc under keyword `sp` -/
+def descriptorManagers (F : Facts14) (sp : Spelling) (ms : List (Mgr Event)) : List (Mgr Event) :=
+  if F.spellingReaches sp then ms else []
 
 /-- what firing method_call / method_return_object raises in this world -/
 def callOutcome (w : World) : Option ExcKind := (runHandlers w.raises .call (targets w (.ctx true) .call)).2
